@@ -1,10 +1,11 @@
 import BornoModel.Lemmas.InterchangeStmt
-/-! # Redundant parentheses anywhere outside function bodies and object-literal initialisers -/
+import BornoModel.Lemmas.InterchangeObj
+/-! # Redundant parentheses anywhere outside function bodies -/
 namespace Borno
 variable (P : Platform)
 
 mutual
-/-- `ParenE e e'`: `e'` is `e` with parentheses inserted around any sub-expressions (none inside object literals) -/
+/-- `ParenE e e'`: `e'` is `e` with parentheses inserted around any sub-expressions -/
 inductive ParenE : Expr → Expr → Prop
   | refl (e : Expr) : ParenE e e
   | wrap {e e' : Expr} (l : Nat) : ParenE e e' → ParenE e (.grouping e' l)
@@ -14,6 +15,7 @@ inductive ParenE : Expr → Expr → Prop
   | logical {a a' r r' : Expr} (op : TT) : ParenE a a' → ParenE r r' → ParenE (.logical a op r) (.logical a' op r')
   | call {c c' : Expr} {args args' : List Expr} (pl : Nat) : ParenE c c' → ParenL args args' → ParenE (.call c pl args) (.call c' pl args')
   | arrayLit {es es' : List Expr} : ParenL es es' → ParenE (.arrayLit es) (.arrayLit es')
+  | objectLit {ps ps' : List (Name × Expr)} (tc : Bool) : ParenP ps ps' → ParenE (.objectLit ps tc) (.objectLit ps' tc)
   | arrayAccess {a a' i i' : Expr} (l : Nat) : ParenE a a' → ParenE i i' → ParenE (.arrayAccess a i l) (.arrayAccess a' i' l)
   | propAccess {o o' : Expr} (p : Name) (l : Nat) : ParenE o o' → ParenE (.propAccess o p l) (.propAccess o' p l)
   | assign {v v' : Expr} (n : Name) (nl l : Nat) : ParenE v v' → ParenE (.assign n nl v l) (.assign n nl v' l)
@@ -22,6 +24,9 @@ inductive ParenE : Expr → Expr → Prop
 inductive ParenL : List Expr → List Expr → Prop
   | nil : ParenL [] []
   | cons {e e' : Expr} {es es' : List Expr} : ParenE e e' → ParenL es es' → ParenL (e :: es) (e' :: es')
+inductive ParenP : List (Name × Expr) → List (Name × Expr) → Prop
+  | nil : ParenP [] []
+  | cons {k : Name} {e e' : Expr} {ps ps' : List (Name × Expr)} : ParenE e e' → ParenP ps ps' → ParenP ((k, e) :: ps) ((k, e') :: ps')
 end
 
 mutual
@@ -35,6 +40,7 @@ theorem parenE_ev : ∀ {e e' : Expr}, ParenE e e' → EvEq P e e'
   | _, _, .call pl hc hargs =>
       EvEq.trans P (cong_callee P pl _ (parenE_ev hc)) (cong_args P _ pl (parenL_ev hargs).2 (parenL_ev hargs).1)
   | _, _, .arrayLit hs => cong_arrayLit P (parenL_ev hs).1
+  | _, _, .objectLit tc hs => cong_objectLit P tc (parenP_ev hs)
   | _, _, .arrayAccess l ha hi => EvEq.trans P (cong_accA P _ l (parenE_ev ha)) (cong_accI P _ l (parenE_ev hi))
   | _, _, .propAccess p l ho => cong_propAcc P p l (parenE_ev ho)
   | _, _, .assign n nl l hv => cong_assign P n nl l (parenE_ev hv)
@@ -44,6 +50,9 @@ theorem parenE_ev : ∀ {e e' : Expr}, ParenE e e' → EvEq P e e'
 theorem parenL_ev : ∀ {es es' : List Expr}, ParenL es es' → EvL P es es' ∧ es.length = es'.length
   | _, _, .nil => ⟨EvL.refl P [], rfl⟩
   | _, _, .cons he hs => ⟨EvL.cons P (parenE_ev he) (parenL_ev hs).1, by simp [(parenL_ev hs).2]⟩
+theorem parenP_ev : ∀ {ps ps' : List (Name × Expr)}, ParenP ps ps' → RelP (EvEq P) ps ps'
+  | _, _, .nil => .nil
+  | _, _, .cons he hs => .cons (parenE_ev he) (parenP_ev hs)
 end
 
 
@@ -112,8 +121,8 @@ theorem parenOS_ev : ∀ {a b : Option Stmt}, ParenOS a b → OptS P a b
 end
 
 /-- **redundant parentheses, whole programs**: if `prog'` is `prog` with parentheses inserted around any
-    sub-expressions of its top-level code, its blocks, branches, loop headers and loop bodies (anywhere but inside
-    function bodies and object-literal initialisers), then from some step budget on interpreting the two ends in
+    sub-expressions of its top-level code, its blocks, branches, loop headers and loop bodies, object-literal initialisers (anywhere but inside
+    function bodies), then from some step budget on interpreting the two ends in
     exactly the same state: same output, same diagnostics, same flags, same remaining input — or the same abnormal end -/
 theorem interpret_paren {prog prog' : List Stmt} (h : ParenSs prog prog') (repl : Bool) (input : List Char) :
     ∃ F0, ∀ F, F0 ≤ F → interpret P F prog repl input = interpret P F prog' repl input :=
